@@ -83,7 +83,12 @@ def strategy(tier):
     # idioms: "use something, change the world underneath it, use it again" as one drawn unit (each expands to three steps)
     @st.composite
     def sandwich(draw):
-        kind = draw(st.sampled_from(["create", "create", "recheck", "rebuild", "hybrid-empty"]))
+        kind = draw(st.sampled_from(["create", "create", "recheck", "rebuild", "hybrid-empty", "rebuild-resume"]))
+        if kind == "rebuild-resume":
+            # a download that was incomplete at the first rebuild and complete at the second
+            k, m = draw(st.integers(0, 9)), draw(st.integers(0, 9))
+            return [{"op": "resize", "k": k, "size": draw(st.sampled_from([0, 1, 777, 16385]))}, {"op": "rebuild", "m": m},
+                    {"op": "restore", "k": k}, {"op": "rebuild", "m": m}]
         if kind == "create":
             c = draw(create_op)
             return [c, draw(fsop), dict(c, pexp=draw(st.sampled_from([c["pexp"], 14, 15])))]
